@@ -108,5 +108,15 @@ PROPS['C13'] = {
             '(PartialDerivative/Gradient/Divergence/Laplacian: delegation to finite_diff, adjoint/derivative constructor arguments) are not under contract yet',
     'technique': 'contract-based deductive verification: symbolic execution of the real slice code on closure arrays with symbolic extents, delta trick for transposes, z3',
 }
+PROPS['C16'] = {
+    'level': 'proof',
+    'text': 'Deductive: the real resize_array with all its slice helpers is executed on closure arrays with SYMBOLIC old/new extents and offsets (1-d grow/shrink/same, '
+            '2-d grow-grow / grow-shrink / shrink-grow incl. corners) for the 5 pad modes: out(k) = EXT_mode(arr)(k - offset) at the generic index, block copied unchanged, '
+            'independent of stale out; documented size limits raise ValueError; forward and adjoint directions are transposes for all extents (delta trick with sparse-support sums); '
+            'crop(extend(a)) = a.',
+    'note': 'trusted: pyvc interpreter + closure-array kernel contracts, contracts of the offset-normalisation helpers (cross-checked natively, bounded), z3 + polynomial normal form; '
+            'ndim <= 2 (bounded-in: ndim); ResizingOperator / _resize_discr not under contract yet',
+    'technique': 'contract-based deductive verification: symbolic execution of the real padding code on closure arrays with symbolic extents, delta trick, region case split, z3 / sympy',
+}
 for _k in PROPS:
     NOT_APPLICABLE.pop(_k, None)
